@@ -14,13 +14,18 @@ RULE = ('one run = Create(version in OB/FO3/SK/SSE/FO4/FO76) + CreateShapeFromDa
         '(version, mesh, step trace).')
 ASSUMPTIONS = ['setters whose contract requires a matching size get matching sizes', 'SetVertsForShape with a different count (documented to drop other data) is not issued',
                'bounds are compared only across raw saves (default saves recompute them)']
-EXPECTED_PROBES = ['vertex_limit_mesh', 'tiny_mesh', 'set_tangents', 'set_colors', 'set_eyedata', 'set_triangles', 'full_precision']
+EXPECTED_PROBES = ['triangle_count_above_16_bit', 'vertex_limit_mesh', 'tiny_mesh', 'set_tangents', 'set_colors', 'set_eyedata', 'set_triangles', 'full_precision']
 
 
 def gen_plan(seed, i, tier):
     rng = Rng(seed, PROP, i)
     ver = rng.choice(['OB', 'FO3', 'SK', 'SSE', 'FO4', 'FO76'])
     nv, nt = hist.mesh_sizes(rng, 'thorough' if (tier == 'thorough' or rng.chance(0.02)) else 'quick')
+    big_tris = ver in ('FO4', 'FO76') and rng.chance(0.04)
+    if big_tris:
+        # more triangles than a 16-bit counter holds (legal from FO4 on: the triangle count is 32 bits wide there)
+        nv = rng.range(380, 600)
+        nt = rng.range(65536, 70000)
     plan = {'property': PROP, 'profile': 'geomapi', 'run_index': i, 'version': ver, 'nv': nv, 'nt': nt, 'salt': rng.below(1 << 30),
             'uv': rng.chance(0.8), 'normals': rng.chance(0.7), 'halfexact': rng.chance(0.2), 'timeout_s': 90}
     steps = []
@@ -30,6 +35,8 @@ def gen_plan(seed, i, tier):
         st = {'op': op, 'salt': rng.below(1 << 30)}
         if op == 'SetTriangles':
             st['nt'] = rng.range(0, max(1, 2 * min(nv, 400)))
+            if big_tris and rng.chance(0.5):
+                st['nt'] = rng.range(65536, 70000)
         steps.append(st)
     if rng.chance(0.8):
         steps.append({'op': 'Restart'})
